@@ -232,6 +232,103 @@ def check_case(spec):
     return fails, classes, nontrivial, nsplits
 
 
+# ----------------------------------------------------------------------------- keep-alive connection of a Valet
+FIRSTS = [b"GET /a HTTP/1.1\r\nHost: h\r\n\r\n",
+          b"POST /p?x=1 HTTP/1.1\r\nHost: h\r\nContent-Length: 5\r\n\r\nhello",
+          b"PUT /c HTTP/1.1\r\nHost: h\r\nTransfer-Encoding: chunked\r\n\r\n3\r\nabc\r\n0\r\n\r\n",
+          b"HEAD / HTTP/1.1\r\nHost: h\r\nConnection: keep-alive\r\n\r\n"]
+
+
+def run_keepalive(case, cuts, gaps=None):
+    """One in-memory connection of a real Valet: the first request arrives whole and is answered, then the second
+    request arrives in the pieces given by cuts (one piece per service pass, plus `gaps` empty passes before each).
+    -> dict(resp=bytes sent for the second request, closed, exc)"""
+    from vp.net import http_doubles
+    from vp.checks import c32_http_malformed as c32
+    valet, socks = http_doubles.make_valet(c32.app, 1)
+    sock = socks[0]
+    out = {}
+    try:
+        sock.deliver(FIRSTS[case["first"]])
+        for _ in range(4):
+            valet.serviceAll()
+        n1 = len(sock.sent)
+        if not n1 or sock.closed:
+            out["harness"] = "first request not answered / connection closed (%d bytes)" % n1
+            return out
+        parts = httpgen.pieces(bytes(case["second"]["wire"]), cuts)
+        for k, piece in enumerate(parts):
+            for _ in range((gaps or [])[k] if k < len(gaps or []) else 0):
+                valet.serviceAll()
+            if piece and not sock.closed:
+                sock.deliver(piece)
+            valet.serviceAll()
+        for _ in range(4):
+            valet.serviceAll()
+        out["resp"] = bytes(sock.sent[n1:])
+        out["closed"] = bool(sock.closed)
+    except Exception as ex:   # noqa: BLE001
+        out["exc"] = exc_sig(ex)
+        out["excmsg"] = "%s: %s" % (type(ex).__name__, ex)
+    finally:
+        try:
+            valet.close()
+        except Exception:   # noqa: BLE001
+            pass
+    return out
+
+
+def check_keepalive(case):
+    """-> (failures, classes, nontrivial, nsplits)"""
+    from vp.checks import c32_http_malformed as c32
+    spec = case["second"]
+    whole = run_keepalive(case, [])
+    if "harness" in whole:
+        raise RuntimeError(whole["harness"])
+    fails = []
+    if "exc" in whole:
+        return [("keepalive:" + whole["exc"], "second request on a keep-alive connection, delivered whole: serviceAll raised %s"
+                 % whole["excmsg"])], ["keepalive"], False, 1
+    prob = c32.check_response(spec, whole["resp"])
+    if prob:
+        fails.append(("keepalive:wrong-response", "second request on a keep-alive connection (first %r), delivered whole: %s"
+                      % (FIRSTS[case["first"]][:30], prob)))
+    total = len(spec["wire"])
+    splits = [[c] for c in range(1, total)] if total <= 400 else []
+    splits += [list(c) for c in case["splits"]]
+    labels = set()
+    seen = set(s for s, _ in fails)
+    for k, cuts in enumerate(splits):
+        labels |= httpgen.cut_classes(spec, cuts)
+        obs = run_keepalive(case, cuts, case["gaps"] if k >= len(splits) - len(case["splits"]) else None)
+        if obs == whole:
+            continue
+        if "exc" in obs:
+            sig, what = "keepalive:" + obs["exc"], "serviceAll raised %s" % obs["excmsg"]
+        else:
+            sig = "keepalive:split-response" if obs.get("resp") != whole["resp"] else "keepalive:split-closed"
+            what = "response %r (closed=%r), delivered whole %r (closed=%r)" % (
+                (obs.get("resp") or b"")[:80], obs.get("closed"), whole["resp"][:80], whole["closed"])
+        if sig not in seen:
+            seen.add(sig)
+            fails.append((sig, "second request of a keep-alive connection (after %r) split at %r over service passes: %s; request %r"
+                          % (FIRSTS[case["first"]][:30], cuts, what, bytes(spec["wire"])[:120])))
+    classes = ["keepalive", "keepalive:" + spec["framing"], "keepalive-first:%d" % case["first"]]
+    for lab in sorted(labels):
+        classes.append("cut-in:" + lab)
+    return fails, classes, True, len(splits) + 1
+
+
+@st.composite
+def keepalive_cases(draw):
+    spec = draw(httpgen.message("request", draw(st.booleans())))
+    total = len(spec["wire"])
+    marks = httpgen.interesting_offsets(spec)
+    splits = [draw(httpgen.cuts_for(total, marks)) for _ in range(4)]
+    return {"keepalive": True, "first": draw(st.integers(0, len(FIRSTS) - 1)), "second": spec, "splits": splits,
+            "gaps": draw(st.lists(st.integers(0, 2), min_size=0, max_size=4))}
+
+
 # ----------------------------------------------------------------------------- strategy
 @st.composite
 def cases(draw, side, small):
@@ -255,6 +352,8 @@ def plan(tier):
         for small in (True, False):
             for i in range(n):
                 shards.append({"side": side, "small": small, "i": len(shards)})
+    for i in range(n):
+        shards.append({"part": "keepalive", "i": 700 + i})
     return shards
 
 
@@ -265,6 +364,20 @@ def work(shard, seed, tier):
     if shard.get("part") == "atheris":
         from vp.fuzz.fuzz_http import run_campaign
         run_campaign(acc, shard["target"], shard["seconds"], seed, max_len=16384)
+        return acc
+    if shard.get("part") == "keepalive":
+        tot = {"splits": 0}
+
+        def execute_ka(case):
+            fails, classes, nontrivial, nsplits = check_keepalive(case)
+            tot["splits"] += nsplits
+            spec = case["second"]
+            return Outcome(fails, nontrivial=nontrivial, classes=classes,
+                           key=(case["first"], bytes(spec["wire"]), repr(case["splits"])),
+                           sample={"first": FIRSTS[case["first"]], "second": bytes(spec["wire"])[:160], "splits": case["splits"][:2]})
+        campaign(acc, keepalive_cases(), execute_ka, 40 if tier == "quick" else 600, seed * 1000 + shard["i"],
+                 budget=Budget(120 if tier == "quick" else 480))
+        acc.extra["split_parses"] = tot["splits"]
         return acc
     if tier == "quick":
         n = 50 if shard["small"] else 90
@@ -290,5 +403,5 @@ def work(shard, seed, tier):
 def replay(case):
     from vp.core import env
     env.quiet_ioflo()
-    fails, _, _, _ = check_case(case)
+    fails, _, _, _ = check_keepalive(case) if case.get("keepalive") else check_case(case)
     return fails
